@@ -129,7 +129,7 @@ func validateInvoiceCustomer(val any) error {
 
 func validateInvoicePreceding(val any) error {
 	p, ok := val.(*org.DocumentRef)
-	if !ok {
+	if !ok || p == nil {
 		return nil
 	}
 	return validation.ValidateStruct(p,
